@@ -38,6 +38,7 @@ ReadOp read_from(const mj::Value & v) {
 }  // namespace
 
 std::string prop_generate(Tape & t, int size) {
+    gen_allow_q() = true;   // integer signals may carry a fixed-point exponent in their data type
     Program p;
     p.ops.push_back(gen_source(t, 1));
     int nsig = (int) t.weighted({5, 3, 2, 1}) + 1;
